@@ -1,10 +1,10 @@
 package main
 
 import (
-	"os/exec"
 	"context"
 	"fmt"
 	"os"
+	"os/exec"
 	"time"
 
 	"github.com/bbva/qed/balloon"
@@ -128,7 +128,9 @@ func transferCmd(out *cq.Out, seed uint64, tier string) {
 					drain(ch)
 					if bn, err := consensus.VNewFSM(rs, ch); err == nil {
 						if got, want := bn.VBalloonVersion(), rn.VBalloonVersion(); got != want || tablesFP(rs) != tablesFP(rn.VStore()) {
-							out.Violate("C09:transferred-state-lost-by-crash", fmt.Sprintf("the follower caught up by state transfer (version %d, installed for raft); the image a process kill would leave of its store reopens at version %d with different tables: the transferred range is not durable", want, got), desc)
+							for _, id := range []string{"C09", "C07", "C05"} { // not a prefix any more (C07), versions re-issued later (C05)
+								out.Violate(id+":transferred-state-lost-by-crash", fmt.Sprintf("the follower caught up by state transfer (version %d, installed for raft); the image a process kill would leave of its store reopens at version %d with different tables: the transferred range is not durable", want, got), desc)
+							}
 						}
 						bn.VCloseFSM()
 					} else {
